@@ -230,6 +230,9 @@ class Writer:
         self.dense = dense
         self.tokens = []        # (kind, line) of every token written, for the checks that need positions
         self.need_ws = False
+        self.forced = []        # presentations to use for the next quoted strings, in order
+        self.fixed_sep = None   # when set, every required white space is exactly this string
+        self.wide = 0.0         # probability that a white-space run pads the line to a column near the limit
         if bom:
             self.out.append('\ufeff')
         if magic:
@@ -254,20 +257,29 @@ class Writer:
     def ws(self, required=True, allow_nl=True):
         """white space between tokens; comments only after white space"""
         rng = self.rng
+        if self.fixed_sep is not None:
+            if required:
+                self.raw(self.fixed_sep)
+                self.need_ws = False
+            return
         if not required and rng.random() < 0.6:
+            return
+        if self.wide and self.col < 1800 and rng.random() < self.wide:
+            # push the next token towards the line-length limit
+            self.raw(rng.choice([' ', '\t']) * (rng.randint(1880, LINE_LIMIT - 1) - self.col))
+            self.need_ws = False
             return
         n = 1 if (self.dense or rng.random() < 0.6) else rng.randint(1, 4)
         wrote = False
         for _ in range(n):
             r = rng.random()
-            if r < 0.5 or not allow_nl:
-                if self.col + 1 >= LINE_LIMIT - 2 and allow_nl:
-                    self.nl()
-                else:
-                    self.raw(' ' if rng.random() < 0.8 else '\t')
+            if self.col + 1 >= LINE_LIMIT - 2:
+                self.nl()
+            elif r < 0.5 or not allow_nl:
+                self.raw(' ' if rng.random() < 0.8 else '\t')
             elif r < 0.85:
                 self.nl()
-            elif self.comments and (wrote or self.col == 0):
+            elif self.comments and (wrote or self.col == 0) and self.col < LINE_LIMIT - 60:
                 self.raw('#' + rng.choice(['', ' a comment', " it's \"fine\" ; [ } data_x loop_ _n", '#\\#CIF_1.1', 'é€😀' if self.version == 2 else '~']))
                 self.nl()
             else:
@@ -322,6 +334,8 @@ class Writer:
             self.note('unquoted')
         elif k == 'char':
             forms = char_forms(v[1], self.version)
+            if self.forced:
+                force = self.forced.pop(0)
             f = force if force in forms else rng.choice(forms)
             self.string(v[1], f)
         elif k == 'list':
@@ -423,10 +437,16 @@ class Writer:
         t = trailing if trailing is not None else rng.choice(['\n', '\n', '', ' ', '\n#end', '\n\n', '\t\n'])
         if t.startswith('#') and self.need_ws:
             t = ' ' + t
+        if self.col + len(t.split('\n')[0]) > LINE_LIMIT:
+            t = '\n'
         if self.out and self.out[-1].endswith(';') and self.tokens and t == '':
             pass
         self.raw(t)
-        return ''.join(self.out)
+        text = ''.join(self.out)
+        too_long = [i + 1 for i, l in enumerate(text.split('\n')) if len(l) > LINE_LIMIT]
+        if too_long:
+            raise AssertionError('writer produced over-length line(s) %r' % too_long[:5])
+        return text
 
 
 # ---- content generation -----------------------------------------------------------------------------------------------
